@@ -146,6 +146,38 @@ Proof.
   split; [apply env_of_ok|]. vm_compute. repeat split.
 Qed.
 
+(* ... and it is an equivalence when the glue yields a value without events and independently of the history
+   (a literal, a variable): this is what a `.Pure` filter on $glue buys, up to glue expressions that panic *)
+Definition pure_total (en : env) (g : expr) : Prop := exists v, forall h, evalS en g h = Some (RVal v, h).
+
+Lemma atom_pure_total en g : typeof g <> None ->
+  (exists k s t, g = ELit k s t) \/ (exists n t, g = EIdent n t) -> pure_total en g.
+Proof.
+  intros T [(k & s & t & ->)|(n & t & ->)].
+  - simpl in T. unfold lit_type_ok in T. destruct (lit_value k s t) as [v|] eqn:L; [|congruence].
+    exists v. intros h. simpl. rewrite L. reflexivity.
+  - eexists. reflexivity.
+Qed.
+
+Theorem string_concat_simplify_preserves_partial en x y g :
+  env_ok en -> typeof (rw_lhs (rw_join_glue x y g)) = Some TString -> pure_total en g ->
+  preserves en (rw_join_glue x y g).
+Proof.
+  intros Hen T [vg Hg] h. simpl rw_rhs; simpl rw_lhs. simpl rw_lhs in T.
+  rewrite typeof_call in T. simpl in T.
+  destruct (typeof x) as [tx|] eqn:Tx; [|discriminate]. destruct (typeof y) as [ty0|] eqn:Ty; [|discriminate].
+  destruct (typeof g) as [tg|] eqn:Tg; [|discriminate].
+  destruct tx; try discriminate; destruct ty0; try discriminate; destruct tg; try discriminate.
+  pose proof (preservation en Hen _ _ _ _ _ Tg (Hg [])) as Pg. destruct vg; try discriminate.
+  rewrite evalS_call. simpl.
+  destruct (evalS en x h) as [[[vx|] h1]|] eqn:Ex; simpl; auto.
+  pose proof (preservation en Hen _ _ _ _ _ Tx Ex) as Px. destruct vx; try discriminate.
+  rewrite (Hg h1). simpl.
+  destruct (evalS en y h1) as [[[vy|] h2]|] eqn:Ey; simpl; auto.
+  pose proof (preservation en Hen _ _ _ _ _ Ty Ey) as Py. destruct vy; try discriminate.
+  rewrite (Hg h2). simpl. rewrite app_assoc_s. reflexivity.
+Qed.
+
 (* offBy1's suggestion deliberately changes behaviour ("maybe you wanted"): for a non-empty slice the
    original panics and the suggestion yields the last element *)
 Theorem off_by1_suggestion_differs :
